@@ -66,6 +66,10 @@ def holds(name, bound, v):
                 return False
             if isinstance(v, Decimal) and not v.is_finite():
                 return False
+            if isinstance(v, (int, Decimal)) and not isinstance(v, bool) and isinstance(bound, float):
+                # exact values are judged against the decimal text of a float step (0.1 is one tenth); float values
+                # against its binary value (IEEE remainder, as v % step computes it)
+                return Fraction(v) % Fraction(str(bound)) == 0
             return Fraction(v) % Fraction(bound) == 0
         if name == "unique_items":
             if not bound:
